@@ -485,6 +485,31 @@ pub fn structured(seed: u64, thorough: bool) -> Vec<BuildSpec> {
         out.push(spec(t.clone(), ecl, None, None, mask, format!("structured:{}", i % 10)));
         if i % 5 == 0 { out.push(spec(t, ecl, Some(2), None, mask, format!("structured-byte:{}", i % 10))); }
     }
+    // what users actually encode: URLs, contact cards, WiFi strings, multi-byte UTF-8, trailing line ends, leading zeros, and
+    // periodic data whose period matches the mask periods (2, 3, 6, 12 bits or bytes) or the symbol width in bytes
+    let mut real: Vec<Vec<u8>> = vec![
+        b"https://example.com".to_vec(), b"HTTPS://EXAMPLE.COM/PATH?A=1&B=2".to_vec(), b"http://xn--bcher-kva.example/%F0%9F%9A%80?q=a+b#frag".to_vec(),
+        b"WIFI:T:WPA;S:my network;P:p@ss;w0rd\\;;H:false;;".to_vec(), b"mailto:someone@example.org?subject=Hi%20there".to_vec(), b"tel:+33123456789".to_vec(),
+        b"BEGIN:VCARD\r\nVERSION:3.0\r\nN:Doe;John;;;\r\nFN:John Doe\r\nTEL;TYPE=CELL:+1 555 0100\r\nEMAIL:john@example.com\r\nEND:VCARD\r\n".to_vec(),
+        "Grüße aus Köln — こんにちは世界 — Привет — 🚀🎉".as_bytes().to_vec(), "é".repeat(40).into_bytes(), "\u{feff}BOM first".as_bytes().to_vec(),
+        b"line one\nline two\n".to_vec(), b"trailing newline\n".to_vec(), b"12345\n".to_vec(), b"HELLO\n".to_vec(), b" leading and trailing space ".to_vec(),
+        b"0000000000000000".to_vec(), b"0".to_vec(), b"00".to_vec(), b"000".to_vec(), b"0001".to_vec(), b"00000000000000000000000000000001".to_vec(), b"0123456789012345678901234567890".to_vec(),
+        b"bitcoin:1A1zP1eP5QGefi2DMPTfTL5SLmv7DivfNa?amount=0.001".to_vec(), b"otpauth://totp/Example:alice@google.com?secret=JBSWY3DPEHPK3PXP&issuer=Example".to_vec(),
+        b"{\"id\":12345,\"ok\":true,\"items\":[1,2,3]}".to_vec(), b"\x00\x01\x02binary\xff\xfe\xfd".to_vec(), b"A".to_vec(), b"a".to_vec(), b" ".to_vec(), b"%".to_vec(),
+    ];
+    for (period, unit) in [(2usize, 1usize), (3, 1), (6, 1), (12, 1), (2, 8), (3, 8), (6, 8), (12, 8), (21, 8), (25, 8), (29, 8), (177, 8)] {
+        for n in [60usize, 400, 1800] {
+            // `unit` = 8: the period is counted in bytes; 1: in bits
+            let bits: Vec<bool> = (0..n * 8).map(|i| ((i / unit) % period) == 0 || (period > 3 && ((i / unit) % period) == 2)).collect();
+            real.push((0..n).map(|j| (0..8).fold(0u8, |a, b| (a << 1) | bits[j * 8 + b] as u8)).collect());
+        }
+    }
+    if !thorough { let keep: Vec<Vec<u8>> = real.iter().enumerate().filter(|(i, _)| i % 3 == (seed % 3) as usize || *i < 30).map(|(_, t)| t.clone()).collect(); real = keep; }
+    for (i, t) in real.into_iter().enumerate() {
+        let ecl = [None, Some(1usize), Some(3), Some(0)][i % 4];
+        out.push(spec(t.clone(), ecl, None, None, if i % 4 == 1 { Some(i % 8) } else { None }, format!("real:{}", i % 10)));
+        if i % 6 == 0 { out.push(spec(t, ecl, Some(2), None, None, format!("real-byte:{}", i % 10))); }
+    }
     // every group the two packed modes can form: all 1000 digit triples and all 2025 alphanumeric pairs, at every alignment
     // (one or two leading characters shift the grouping), plus every final incomplete group (1 or 2 digits, 1 alphanumeric)
     let triples: Vec<u8> = (0..1000usize).flat_map(|t| format!("{:03}", (t * 7) % 1000).into_bytes()).collect();
